@@ -1,6 +1,9 @@
 """C11 — Handover: the successor listens before the predecessor stops."""
+import re
+import subprocess
+
 import kv
-from kv import Case, xn, xl, xlist
+from kv import Case, xn, xl, xlist, xb
 
 ID = "C11"
 MODULE = "C11"
@@ -11,33 +14,60 @@ IMPL_SHARDS = 6
 PER_SHARD = 4
 KERNEL_SAMPLE = 12
 
-_CHAIN = ("(forall j, j < n -> port_served s j = true) /\\ "
+_SUCC = "exists y, nth_error (insts s) (S i) = Some y /\\ all_bnd n y"
+_ONLY = ("S i = length (insts s) \\/ (S (S i) = length (insts s) /\\ exists y, nth_error (insts s) (S i) = Some y /\\ "
+         "i_pc y <> PRunning)")
+_DRAINED = "all_done (i_sd x) = true /\\ forallb (fun l => negb (l_bound l)) (ls (i_sd x)) = true"
+_DONE = "completed (i_sd x) = true /\\ forallb (fun w => w) (i_lw x) = true"
+_CHAIN = ("(forall j, (j < n)%nat -> port_served s j = true) /\\ "
           "(forall i x, nth_error (insts s) i = Some x -> "
-          "(forall j, closed x j -> exists y, nth_error (insts s) (S i) = Some y /\\ all_bnd n y) /\\ "
-          "(finished (i_sd x) = true -> all_done (i_sd x) = true /\\ forallb (fun l => negb (l_bound l)) (ls (i_sd x)) = true) /\\ "
-          "(i_recv x = true -> hquiescent hrepaired s -> completed (i_sd x) = true)) /\\ "
-          "(forall i, serves s i = true -> S i = length (insts s) \\/ "
-          "(S (S i) = length (insts s) /\\ exists y, nth_error (insts s) (S i) = Some y /\\ i_pc y <> PRunning))")
+          "((i_msg x || i_recv x) = true -> " + _SUCC + ") /\\ "
+          "(forall j, closed x j -> " + _SUCC + ") /\\ "
+          "(finished (i_sd x) = true -> " + _DRAINED + ") /\\ "
+          "(forall c, (k_after (kget c (i_ka x)) <= 1)%nat) /\\ "
+          "(i_recv x = true -> hquiescent hrepaired s -> " + _DONE + ")) /\\ "
+          "(forall i, serves s i = true -> " + _ONLY + ") /\\ "
+          "(hquiescent hrepaired s -> serves s (pred (length (insts s))) = true) /\\ "
+          "(forall k lb s', serves s k = true -> S k = length (insts s) -> hstep hrepaired s lb = Some s' -> serves s' k = true)")
 
 THEOREMS = [
     ("always_bound",
      "forall (n : nat) (s : hstate) (j : nat), hreachable hrepaired n s -> (j < n)%nat -> port_served s j = true"),
+    ("told_after_bound",
+     "forall (n : nat) (s : hstate) (i : nat) (x : inst), hreachable hrepaired n s -> nth_error (insts s) i = Some x -> "
+     "(i_msg x || i_recv x) = true -> " + _SUCC),
     ("successor_binds_first",
      "forall (n : nat) (s : hstate) (i : nat) (x : inst) (j : nat), hreachable hrepaired n s -> "
-     "nth_error (insts s) i = Some x -> closed x j -> exists y, nth_error (insts s) (S i) = Some y /\\ all_bnd n y"),
+     "nth_error (insts s) i = Some x -> closed x j -> " + _SUCC),
     ("handover_drains",
      "forall (n : nat) (s : hstate) (i : nat) (x : inst), hreachable hrepaired n s -> nth_error (insts s) i = Some x -> "
-     "finished (i_sd x) = true -> all_done (i_sd x) = true /\\ forallb (fun l => negb (l_bound l)) (ls (i_sd x)) = true"),
+     "finished (i_sd x) = true -> " + _DRAINED),
+    ("keepalive_one_more",
+     "forall (n : nat) (s : hstate) (i : nat) (x : inst) (c : nat), hreachable hrepaired n s -> nth_error (insts s) i = Some x -> "
+     "(k_after (kget c (i_ka x)) <= 1)%nat"),
     ("handover_no_hang",
      "forall (n : nat) (s : hstate) (i : nat) (x : inst), hreachable hrepaired n s -> nth_error (insts s) i = Some x -> "
-     "i_recv x = true -> hquiescent hrepaired s -> completed (i_sd x) = true"),
+     "i_recv x = true -> hquiescent hrepaired s -> " + _DONE),
+    ("late_wait_resolves",
+     "forall (v : hvariant) (s : hstate) (i : nat) (x : inst) (w : nat), nth_error (insts s) i = Some x -> finished (i_sd x) = true -> "
+     "nth_error (i_lw x) w = Some false -> exists s', hstep v s (HWaitPoll i w) = Some s' /\\ "
+     "exists x', nth_error (insts s') i = Some x' /\\ nth_error (i_lw x') w = Some true"),
     ("ctl_successor_only",
-     "forall (n : nat) (s : hstate) (i : nat), hreachable hrepaired n s -> serves s i = true -> "
-     "S i = length (insts s) \\/ (S (S i) = length (insts s) /\\ exists y, nth_error (insts s) (S i) = Some y /\\ i_pc y <> PRunning)"),
-    ("chain", "forall (n : nat) (s : hstate), hreachable hrepaired n s -> (" + _CHAIN.replace("j < n", "(j < n)%nat") + ")"),
+     "forall (n : nat) (s : hstate) (i : nat), hreachable hrepaired n s -> serves s i = true -> " + _ONLY),
+    ("ctl_successor_answers",
+     "forall (n : nat) (s : hstate), hreachable hrepaired n s -> hquiescent hrepaired s -> serves s (pred (length (insts s))) = true"),
+    ("path_stable",
+     "forall (n : nat) (s : hstate) (k : nat) (lb : hlabel) (s' : hstate), hreachable hrepaired n s -> serves s k = true -> "
+     "S k = length (insts s) -> hstep hrepaired s lb = Some s' -> serves s' k = true"),
+    ("chain", "forall (n : nat) (s : hstate), hreachable hrepaired n s -> (" + _CHAIN + ")"),
     ("always_bound_today_refuted",
      "exists s, hreachable htoday 1 s /\\ port_served s 0 = false /\\ exists x y, nth_error (insts s) 0 = Some x /\\ closed x 0 /\\ "
-     "nth_error (insts s) 1 = Some y /\\ nth 0 (i_bnd y) false = false"),
+     "nth_error (insts s) 1 = Some y /\\ nth 0 (i_bnd y) BNone = BNone"),
+    ("eager_start_refuted",
+     "exists s, hreachable hbound 1 s /\\ hquiescentb hbound s = true /\\ length (insts s) = 3%nat /\\ serves s 1 = true /\\ "
+     "serves s 2 = false /\\ exists x y, nth_error (insts s) 1 = Some x /\\ nth_error (insts s) 2 = Some y /\\ "
+     "listening x 0 = true /\\ listening y 0 = true /\\ i_pc x = PRunning /\\ i_pc y = PRunning /\\ i_msg x = false /\\ "
+     "i_recv x = false /\\ finished (i_sd x) = false"),
 ]
 
 # ---- program-counter codes of Model/Shutdown.v and Model/Handover.v (x_lpc, x_cpc, x_spc, x_kpc, x_ipc, x_tpc) ----
@@ -57,11 +87,48 @@ def parse_out(i):
         x = py(kv.xparse(i))
     except Exception:
         return None
-    if not isinstance(x, list) or len(x) != 9 or not isinstance(x[1], list):
+    if not isinstance(x, list) or len(x) != 10 or not isinstance(x[1], list):
         return None
     ev = [(e[0], e[1], bytes(e[2]).decode(), e[3] - OFF, e[4]) for e in x[2]]
-    return {"stalled": x[0], "ports": x[1], "events": ev, "exchanges": x[3], "who": x[4], "timings": x[5],
-            "executed": x[6], "waited": x[7], "refuses_after": x[8]}
+    return {"stalled": x[0], "ports": x[1], "events": ev, "exchanges": x[3], "probes": x[4], "timings": x[5],
+            "executed": x[6], "waited": x[7], "refuses_after": x[8], "waiters": x[9]}
+
+
+# exchange record: kind local port_ix t_start t_end result conn seq who+1 v6
+X_KIND, X_LOCAL, X_PORT, X_T0, X_T1, X_RES, X_CONN, X_SEQ, X_WHO, X_V6 = range(10)
+# probe record (run-length encoded): start and end of the first probe, end of the last, count, outcome, id, inode
+P_S0, P_E0, P_E1, P_CNT, P_OUT, P_ID, P_INO = range(7)
+KINDS = {0: "back-to-back", 1: "slow handler", 2: "busy keep-alive", 3: "idle keep-alive"}
+
+
+# Hook points that carry the correspondence (cargo feature verif-hooks; commits in hooks.json).  A refactor of kvarn that moves one of
+# them has to move it to the place that still has the meaning given here, else the check reports a log that is not a trace of the model
+# although the code may be right.  `closed` = the harness gives the baton to the thread that passes the point: the segment up to the
+# thread's next point contains an access to shared state.
+HOOK_POINTS = {
+    "ex.bind": "execute(): before the socket of a listener is created (value: port); closed; not a label, delay point",
+    "hx.listen": "execute(): the socket is bound, before listen() (value: port); closed; label HMain PSpawn j -> PListen j",
+    "ex.bound": "execute(): the socket is in listening state and registered with the manager (value: port); label HMain PListen j -> "
+                "PSpawn (j+1); must be passed by the thread that later passes ctl.send (else: HBind, not enabled in the repaired code)",
+    "ctl.send": "ctl::listen: before send_to('shutdown no-wait'); its thread is 'the start-up program' of the instance; label HMain "
+                "PSpawn n -> PWait k / PRm",
+    "ctl.got": "ctl::listen: the reply (0 NotFound, 1 ok, 2 Error or another reply); 1: label HMain PWait k -> PRm; 2: no label (rejected)",
+    "ctl.started": "ctl::listen: start_at has returned; labels HMain PRm -> PBindCtl -> PRunning",
+    "ctl.recv": "shutdown plugin entered (value: no-wait); label HRecv; from here on the instance is 'told'",
+    "ctl.reply": "shutdown plugin returns; label HReply",
+    "sh.enter sh.set sh.init sh.swap sh.notify sh.exit": "Manager::shutdown, C10's caller program; labels HSd (SStep 0); sh.set = the flag is set",
+    "ap.poll ap.flag ap.waker ap.checked": "the accept future, C10's listener program; labels HSd (LStep j)",
+    "al.top al.got al.counted al.shut al.exit": "the accept loop (al.top value: own port, al.got/al.counted value: peer port); labels HSd "
+                                                "(LStep j / LTake j / EConn j); al.shut = the listener is about to be dropped",
+    "co.start": "first point of a connection task (value: peer port): ties the task to the stream counted at al.counted",
+    "hx.req": "handle_connection: a request has been read (value: peer port); label HReq",
+    "hx.resp": "handle_connection: the answer is done, before continue_accepting(); closed; no label",
+    "hx.cont": "handle_connection: what continue_accepting() returned (1 go on, 0 leave the loop); label HResp",
+    "rm.enter rm.dec rm.flag rm.exit": "remove_connection (from the drop guard of an accept loop or a connection task); labels HSd (LStep j / "
+                                       "CStep c), for a connection task preceded by HKaEnd when the loop was left without hx.cont = 0",
+    "ct.start ct.sent ct.loop ct.exit": "the completion task spawned by _shutdown; labels HSd KStep; ct.exit = the shutdown-complete signal "
+                                        "has been sent",
+}
 
 
 def hsd(i, kind, a):
@@ -70,29 +137,38 @@ def hsd(i, kind, a):
 
 class Mapper:
     """Turns the serialised hook log of the real servers into labels of Model/Handover.v, each with the program counter
-    the hook point reported.  Trusted glue (it only re-labels): a wrong mapping makes the model reject the log."""
+    the hook point reported.  Trusted glue (it only re-labels): a wrong mapping makes the model reject the log.
+    Listener j of an instance = the j-th socket its execute() creates (port by port; with both address families the IPv4
+    socket of a port, then its IPv6 socket).  An accept task is recognised by the port its first `al.top` reports; of two
+    tasks with the same port (the two families) the first seen is given the lower index: the two are in the same state
+    when they start, so either assignment is a trace of the model."""
 
-    def __init__(self, ports):
+    def __init__(self, ports, per_port):
         self.ports = ports
+        self.per_port = per_port
+        self.nl = len(ports) * per_port
         self.out = []       # (label xval, obs)
         self.src = []       # index of the raw event behind each entry
         self.main_tid = {}
         self.mobs = {}      # instance -> program counter of execute() after its last step
-        self.mpc = {}       # instance -> number of spawn steps of execute() done (today's code: not observable)
         self.lst = {}       # (inst, tid) -> listener index
+        self.taken = set()  # (inst, listener index) that has its accept task
         self.lpc = {}       # (inst, j) -> mirror pc
         self.slot = {}
         self.woken = {}
         self.q = {}
         self.peer_at = {}   # (inst, j) -> peer port of the stream just accepted
-        self.pending = []   # (inst, peer, index among the instance's connection tasks): counted, task not yet seen
+        self.pending = []   # (inst, peer, token): counted, task not yet seen; token = {c: index among the instance's connection tasks (given at the accept loop's next al.top), deferred: entries held back, kst: mirror of the request loop 0 waiting / 1 serving / 2 left}
         self.nconn = {}
-        self.conn_tid = {}  # (inst, tid) -> index among the instance's connection tasks
-        self.cpc = {}       # (inst, c) -> mirror pc of the connection task
+        self.conn_tid = {}  # (inst, tid) -> token of the connection task
         self.fin = set()
-        self.started = set()
-        self.up0 = False
         self.accepted = []  # (peer port, listener index, time of the accept hook, instance)
+        self.nlisten = {}   # instance -> sockets bound so far by its execute()
+        self.nbound = {}    # instance -> sockets put into listening state so far by its execute()
+        self.unknown = []
+        self.uncreated = {}  # (inst, listener j) -> token of the connection counted by the accept loop, its task not yet in the model
+        self.nwait = {}      # instance -> late waiters so far
+        self.widx = {}       # (inst, kind) -> index of the late waiter
 
     def emit(self, n, label, obs):
         self.out.append((label, obs))
@@ -100,14 +176,34 @@ class Mapper:
         if label[1][0] == ("N", 1):            # HMain: remember execute()'s program counter (reported with HBind)
             self.mobs[label[1][1][1]] = obs
 
-    def ensure_spawned(self, n, i, upto):
-        """today's code has no hook at the spawn of an accept task: the steps are taken when something shows they happened"""
-        while self.mpc.get(i, 0) < upto:
-            self.mpc[i] = self.mpc.get(i, 0) + 1
-            self.emit(n, xl(xn(1), xn(i)), self.mpc[i])
+    def conn_entry(self, n, tok, mk, obs):
+        """an entry of a connection task: held back while the accept loop has not reached its next `al.top` — only there does the
+        model get the task (and the task its index among the instance's connection tasks); the points `co.start` and `hx.req` do
+        not wait for the accept loop's segment to end, and another accept loop may pass in between"""
+        if tok["c"] is None:
+            tok["deferred"].append((n, mk, obs))
+        else:
+            self.emit(n, mk(tok["c"]), obs)
+
+    def listener_of(self, i, tid, port):
+        if (i, tid) in self.lst:
+            return self.lst[(i, tid)]
+        if port not in self.ports:
+            return None
+        base = self.ports.index(port) * self.per_port
+        for j in range(base, base + self.per_port):
+            if (i, j) not in self.taken:
+                self.taken.add((i, j))
+                self.lst[(i, tid)] = j
+                return j
+        return None
+
+    def finished(self, n, i):
+        if i not in self.fin:
+            self.fin.add(i)
+            self.emit(n, hsd(i, K_STEP, 0), 4)
 
     def run(self, events):
-        nports = len(self.ports)
         for inst, tid, name, val, _t in events:
             if name == "ctl.send" and inst not in self.main_tid:
                 self.main_tid[inst] = tid
@@ -121,64 +217,75 @@ class Mapper:
                 if val >= 1:
                     self.emit(n, xl(xn(0)), val + 1)
                 continue
-            if name == "h.serves":
-                if val == 0:
-                    self.up0 = True
-                else:
-                    if val not in self.started:
-                        self.started.add(val)
-                        self.emit(n, xl(xn(1), xn(val)), 102)
-                    self.emit(n, xl(xn(3), xn(val)), 2)
-                continue
             if name == "h.waited":
-                if val not in self.fin:
-                    self.fin.add(val)
-                    self.emit(n, hsd(val, K_STEP, 0), 4)
+                self.finished(n, val)
                 self.emit(n, hsd(val, W_STEP, 0), 1)
                 continue
-            if name in ("h.executed", "ex.bind", "sh.enter", "co.start", "ct.start"):
+            if name == "h.wnew":
+                i, kind = val // 4, val % 4
+                self.widx[(i, kind)] = self.nwait.get(i, 0)
+                self.nwait[i] = self.nwait.get(i, 0) + 1
+                self.emit(n, xl(xn(11), xn(i)), self.nwait[i])
+                continue
+            if name == "h.wres":
+                i, kind = val // 4, val % 4
+                self.finished(n, i)
+                self.emit(n, xl(xn(12), xn(i), xn(self.widx.get((i, kind), 99))), 1)
+                continue
+            if name in ("h.serves", "h.executed", "h.lsn", "ex.bind", "sh.enter", "co.start", "ct.start", "hx.resp"):
                 if name == "co.start":
                     # the task of the oldest not yet started connection with this peer port (the same client port may be
                     # connected to two ports at once; two such tasks are in the same state, so either choice is a trace)
-                    for m, (ii, peer, ix) in enumerate(self.pending):
+                    for m, (ii, peer, tok) in enumerate(self.pending):
                         if ii == i and peer == val:
-                            self.conn_tid[(i, tid)] = ix
+                            self.conn_tid[(i, tid)] = tok
                             del self.pending[m]
                             break
                 continue
             if i == 99:
                 continue
             # ---- execute() of a successor (instance 0 is the model's initial instance: already up) ----
+            if name == "hx.listen":
+                if i == 0:
+                    continue
+                j = self.nlisten.get(i, 0)
+                self.nlisten[i] = j + 1
+                if tid == self.main_tid.get(i):
+                    self.emit(n, xl(xn(1), xn(i)), 200 + j)
+                else:
+                    self.emit(n, xl(xn(2), xn(i), xn(j)), self.mobs.get(i, 0))
+                continue
             if name == "ex.bound":
                 if i == 0:
                     continue
-                j = self.ports.index(val)
+                j = self.nbound.get(i, 0)
+                self.nbound[i] = j + 1
                 if tid == self.main_tid.get(i):
-                    self.mpc[i] = j + 1
                     self.emit(n, xl(xn(1), xn(i)), j + 1)
                 else:
-                    self.ensure_spawned(n, i, j + 1)
                     self.emit(n, xl(xn(2), xn(i), xn(j)), self.mobs.get(i, 0))
                 continue
             if name == "ctl.send":
                 if i == 0:
                     continue
-                self.ensure_spawned(n, i, nports)
-                self.mpc[i] = 1000
                 self.emit(n, xl(xn(1), xn(i)), 100 if got.get(i) != 0 else 101)
                 continue
             if name == "ctl.got":
                 if i == 0:
                     continue
-                if val != 0:
+                if val == 1:
                     self.emit(n, xl(xn(1), xn(i)), 101)
+                elif val != 0:
+                    # Response::Error or a reply that is not `ok`: ctl::listen returns without a control socket — not a step of the model
+                    self.unknown.append(("ctl.got %d" % val, i))
+                    self.emit(n, xl(xn(9), xn(i)), 0)
                 continue
             if name == "ctl.started":
                 if i == 0:
                     continue
-                if i not in self.started:
-                    self.started.add(i)
-                    self.emit(n, xl(xn(1), xn(i)), 102)
+                # start_at has returned: the file at the path was removed, the path is bound
+                self.emit(n, xl(xn(1), xn(i)), 103)
+                self.emit(n, xl(xn(1), xn(i)), 102)
                 continue
             if name == "ctl.recv":
                 self.emit(n, xl(xn(4), xn(i)), 2)
@@ -205,11 +312,21 @@ class Mapper:
                 continue
             # ---- accept loops ----
             if name == "al.top":
-                j = self.ports.index(val)
-                self.lst[(i, tid)] = j
+                j = self.listener_of(i, tid, val)
+                if j is None:
+                    self.emit(n, xl(xn(9), xn(i)), 0)
+                    continue
                 k = (i, j)
                 if self.lpc.get(k) == LCOUNTED:
                     self.emit(n, hsd(i, L_STEP, j), LTOP)
+                    tok = self.uncreated.pop(k, None)
+                    if tok is not None:
+                        # this step appends the task to the model's list of connection tasks
+                        tok["c"] = self.nconn.get(i, 0)
+                        self.nconn[i] = tok["c"] + 1
+                        for n0, mk, obs in tok["deferred"]:
+                            self.emit(n0, mk(tok["c"]), obs)
+                        tok["deferred"] = []
                 self.lpc[k] = LTOP
                 continue
             if (i, tid) in self.lst and (name.startswith("ap.") or name.startswith("al.") or name.startswith("rm.")):
@@ -235,8 +352,9 @@ class Mapper:
                     if name == "al.counted":
                         # the task is spawned, and gets its index among the instance's connection tasks, in the segment that
                         # ends at the next al.top; no other accept loop can be between its al.counted and al.top
-                        self.pending.append((i, val, self.nconn.get(i, 0)))
-                        self.nconn[i] = self.nconn.get(i, 0) + 1
+                        tok = {"c": None, "deferred": [], "kst": 0}
+                        self.pending.append((i, val, tok))
+                        self.uncreated[k] = tok
                     self.emit(n, hsd(i, L_STEP, j), new)
                     self.lpc[k] = new
                 elif name == "al.got":
@@ -256,87 +374,198 @@ class Mapper:
                     self.emit(n, hsd(i, L_STEP, j), new)
                     self.lpc[k] = new
                 continue
-            # ---- connection tasks ----
+            # ---- connection tasks: the request loop, then the release of the connection's count ----
+            if (i, tid) in self.conn_tid and name in ("hx.req", "hx.cont"):
+                tok = self.conn_tid[(i, tid)]
+                if name == "hx.req":
+                    tok["kst"] = 1
+                    self.conn_entry(n, tok, lambda c, i=i: xl(xn(7), xn(i), xn(c)), 1)
+                else:
+                    tok["kst"] = 0 if val == 1 else 2
+                    self.conn_entry(n, tok, lambda c, i=i: xl(xn(8), xn(i), xn(c)), tok["kst"])
+                continue
             if (i, tid) in self.conn_tid and name.startswith("rm."):
-                c = self.conn_tid[(i, tid)]
+                tok = self.conn_tid[(i, tid)]
+                if name == "rm.enter" and tok["kst"] != 2:
+                    # the loop was left without the re-check: the client closed, no request head within 5 s, an I/O error
+                    tok["kst"] = 2
+                    self.conn_entry(n, tok, lambda c, i=i: xl(xn(10), xn(i), xn(c)), 2)
                 new = {"rm.enter": 3, "rm.dec": 4, "rm.flag": 5, "rm.exit": 6}[name]
-                self.emit(n, hsd(i, C_STEP, c), new)
+                self.conn_entry(n, tok, lambda c, i=i: hsd(i, C_STEP, c), new)
                 continue
             # anything else: a hook point the mapper does not know is a label the model does not have
+            self.unknown.append((name, i))
             self.emit(n, xl(xn(9), xn(i)), 0)
         return self.out
 
 
 _DRV = None
+_POOL = None
 
 
-def model_check(nports, entries):
+def _big_stack():
+    # the extracted list functions are not tail-recursive: a log of several 100 000 entries needs more than the default 8 MB stack
+    import resource
+    try:
+        soft, hard = resource.getrlimit(resource.RLIMIT_STACK)
+        resource.setrlimit(resource.RLIMIT_STACK, (hard, hard))
+    except (ValueError, OSError):
+        pass
+
+
+def model_check(nl, entries):
     global _DRV
     if _DRV is None:
         _DRV = kv.build_model_driver()
-    x = xl(xn(1), xn(nports), xlist([xl(lb, xn(o)) for lb, o in entries]))
-    out = kv._run_sharded(_DRV, ["t handover.check " + kv.xtext(x)], shards=1)
+    x = xl(xn(2), xn(nl), xlist([xl(lb, xn(o)) for lb, o in entries]))
     try:
-        r = py(kv.xparse(out["t"]))
+        p = subprocess.run([_DRV], input="t handover.check " + kv.xtext(x) + "\n", capture_output=True, text=True, timeout=900,
+                           preexec_fn=_big_stack, env=kv.ENV)
+        out = p.stdout.strip()
+        r = py(kv.xparse(out[out.index(" ") + 1:]))
         return r[0], r[1], r[2]
     except Exception:
         return None
 
 
 def analyse(c, i):
-    """everything the checks need from one run -> dict (cached on the case)"""
-    if "an" in c.meta:
+    """everything the checks need from one run -> dict (cached on the case, per output); an output that cannot be analysed is a
+    complaint, never a crash of the check"""
+    key = hash(i)
+    if c.meta.get("an_key") == key:
         return c.meta["an"]
+    c.meta["an_key"] = key
+    try:
+        return _analyse(c, i)
+    except Exception as e:  # noqa: BLE001
+        import traceback
+        c.meta["an"] = {"crash": "%s: %s (%s)" % (type(e).__name__, e, traceback.format_exc().strip().splitlines()[-3].strip())}
+        return c.meta["an"]
+
+
+def _analyse(c, i):
     r = parse_out(i)
     if r is None:
         c.meta["an"] = None
         return None
-    nports = len(r["ports"])
+    per_port = 2 if c.meta.get("dual") else 1
+    nl = len(r["ports"]) * per_port
     ev = r["events"]
-    an = {"r": r}
-    # -- independent of the model: which instance has which port bound, from the bind / close hook points --
-    bound = {p: set() for p in r["ports"]}
+    an = {"r": r, "nl": nl}
+    # -- independent of the model: which instance has which port bound and listening, from the bind / close hook points --
+    bound = {p: {} for p in r["ports"]}
     seen_first = False
     gap = None
     order = None
+    told = None
+    kernel = None
     everb = {}
+    t_set, t_told, t_fin, t_hstart = {}, {}, {}, {}
+    reqs = {}          # peer port -> [(time, instance)] of requests read by an instance
+    newest = 0
     for n, (inst, tid, name, val, t) in enumerate(ev):
-        if name == "ex.bound":
-            bound[val].add(inst)
-            everb.setdefault(inst, set()).add(val)
+        if name == "h.start":
+            newest = val
+            t_hstart[val] = t
+        elif name == "ex.bound":
+            bound.setdefault(val, {})[inst] = bound.get(val, {}).get(inst, 0) + 1
+            everb[inst] = everb.get(inst, 0) + 1
         elif name == "al.shut":
-            bound[val].discard(inst)
-            if order is None and len(everb.get(inst + 1, ())) < nports and any(e[2] == "h.start" and e[3] == inst + 1 for e in ev[:n]):
-                order = "instance %d closed port %d at %d us before instance %d had bound every port" % (inst, val, t, inst + 1)
-        if not seen_first and all(bound[p] for p in r["ports"]):
+            bound.setdefault(val, {})[inst] = bound.get(val, {}).get(inst, 0) - 1
+            if order is None and everb.get(inst + 1, 0) < nl and inst < newest:
+                order = ("instance %d closed a listener of port %d at %d us before instance %d had bound and put into listening state "
+                         "every socket (%d of %d)" % (inst, val, t, inst + 1, everb.get(inst + 1, 0), nl))
+        elif name == "ctl.recv":
+            t_told.setdefault(inst, t)
+            if told is None and everb.get(inst + 1, 0) < nl:
+                told = ("instance %d was told to shut down at %d us before its successor had bound and put into listening state every "
+                        "socket (%d of %d)" % (inst, t, everb.get(inst + 1, 0), nl))
+        elif name == "sh.set":
+            t_set.setdefault(inst, t)
+        elif name == "ct.exit":
+            t_fin.setdefault(inst, t)
+        elif name == "hx.req":
+            reqs.setdefault(val, []).append((t, inst))
+        elif name == "h.lsn":
+            ix, cnt = val // 1000, val % 1000
+            if inst >= 1 and val >= 0 and cnt < 2 * per_port and kernel is None:
+                kernel = ("when instance %d was about to tell its predecessor to shut down (%d us) %d socket(s) bound to port %d were in "
+                          "listening state (SO_ACCEPTCONN); the predecessor's and its own are %d" % (inst, t, cnt, r["ports"][ix], 2 * per_port))
+        if not seen_first and all(any(v > 0 for v in bound[p].values()) for p in r["ports"]):
             seen_first = True
         if seen_first and gap is None:
             for p in r["ports"]:
-                if not bound[p]:
-                    gap = "port %d bound by no instance after event %d (%s of instance %d at %d us)" % (p, n, name, inst, t)
-    an["gap"] = gap
-    an["order"] = order
+                if not any(v > 0 for v in bound[p].values()):
+                    gap = "port %d: no instance has a listening socket after event %d (%s of instance %d at %d us)" % (p, n, name, inst, t)
+    an.update(gap=gap, order=order, told=told, kernel=kernel, t_set=t_set, t_told=t_told, t_fin=t_fin, t_hstart=t_hstart)
     # -- the clients' ledger --
-    m = Mapper(r["ports"])
+    m = Mapper(r["ports"], per_port)
     entries = m.run(ev)
     an["entries"] = entries
     an["src"] = m.src
+    an["unknown"] = m.unknown
     acc = {}
-    for peer, j, t, _inst in m.accepted:
-        acc.setdefault((peer, j), []).append(t)
+    for peer, j, t, inst in m.accepted:
+        acc.setdefault((peer, j // per_port), []).append((t, inst))
 
-    def accepted(e):
-        # local ports are re-used (a reset connection leaves no TIME_WAIT): match the accept hook by time as well
-        return any(e[3] <= t <= e[4] for t in acc.get((e[1], e[2]), ()))
+    def accepted_all(e):
+        # local ports are re-used (a reset connection leaves no TIME_WAIT): match the accept hook by time as well; an IPv4 and an
+        # IPv6 client may have the same local port at the same time (the accept hook does not tell the family)
+        return {inst for t, inst in acc.get((e[X_LOCAL], e[X_PORT]), ()) if e[X_T0] <= t <= e[X_T1]}
 
-    refused = [e for e in r["exchanges"] if e[5] == 1]
-    bad_acc = [e for e in r["exchanges"] if e[5] != 0 and e[5] != 1 and accepted(e)]
-    lost = [e for e in r["exchanges"] if e[5] in (4, 5)]
-    kq = [e for e in r["exchanges"] if e[5] in (2, 3, 6) and not accepted(e)]
-    an.update(refused=refused, bad_acc=bad_acc, lost=lost, kernel_reset=len(kq), total=len(r["exchanges"]),
-              complete=sum(1 for e in r["exchanges"] if e[5] == 0),
-              slow_complete=sum(1 for e in r["exchanges"] if e[5] == 0 and e[0] == 1))
-    an["check"] = model_check(nports, entries)
+    def accepted_by(e):
+        a = accepted_all(e)
+        return min(a) if a else None
+
+    def read_by(e):
+        for t, inst in reqs.get(e[X_LOCAL], ()):
+            if e[X_T0] <= t <= e[X_T1]:
+                return inst
+        return None
+
+    exs = r["exchanges"]
+    reqs_ex = [e for e in exs if not (e[X_KIND] == 3 and e[X_SEQ] == 1)]
+    refused = [e for e in reqs_ex if e[X_RES] == 1]
+    # a request on a kept-alive connection that the server closed after the previous answer: the client sees the end of the
+    # connection instead of an answer and sends the request again on a new connection (as any HTTP client does)
+    ka_closed = [e for e in reqs_ex if e[X_KIND] == 2 and e[X_SEQ] >= 1 and e[X_RES] == 2 and read_by(e) is None]
+    ka_ids = {id(e) for e in ka_closed}
+    bad_acc = [e for e in reqs_ex if e[X_RES] not in (0, 1) and id(e) not in ka_ids and accepted_by(e) is not None]
+    bad_read = [e for e in reqs_ex if e[X_RES] != 0 and read_by(e) is not None]
+    lost = [e for e in reqs_ex if e[X_RES] in (4, 5)]
+    kq = [e for e in reqs_ex if e[X_RES] in (2, 3, 6) and id(e) not in ka_ids and accepted_by(e) is None]
+    wrong_who = []
+    for e in reqs_ex:
+        if e[X_RES] == 0 and e[X_SEQ] == 0:
+            a = accepted_all(e)
+            if len(a) == 1 and e[X_WHO] != min(a) + 1:
+                wrong_who.append((e, min(a)))
+    # keep-alive: once an instance has set its shutdown flag it answers at most one more request per connection
+    per_conn = {}
+    for e in exs:
+        if e[X_KIND] == 2 and e[X_RES] == 0 and e[X_WHO] > 0:
+            w = e[X_WHO] - 1
+            if w in t_set and e[X_T0] > t_set[w]:
+                per_conn.setdefault((e[X_CONN], w), []).append(e)
+    ka_over = sorted(((k, v) for k, v in per_conn.items() if len(v) > 1), key=lambda kv_: -len(kv_[1]))
+    idle = [e for e in exs if e[X_KIND] == 3 and e[X_SEQ] == 1]
+    an.update(refused=refused, bad_acc=bad_acc, bad_read=bad_read, lost=lost, kernel_reset=len(kq), total=len(reqs_ex),
+              ka_closed=len(ka_closed), wrong_who=wrong_who, ka_over=ka_over, idle=idle,
+              complete=sum(1 for e in reqs_ex if e[X_RES] == 0),
+              slow_complete=sum(1 for e in reqs_ex if e[X_RES] == 0 and e[X_KIND] == 1),
+              ka_complete=sum(1 for e in reqs_ex if e[X_RES] == 0 and e[X_KIND] == 2),
+              ka_spanning=sum(1 for (cid, w), v in per_conn.items() if v), v6_complete=sum(1 for e in reqs_ex if e[X_RES] == 0 and e[X_V6]))
+    # a point that is no step of the model ends the part of the log the model can check
+    cut = next((n for n, (lb, _o) in enumerate(entries) if lb[1][0] == ("N", 9)), len(entries))
+    # the trace check runs beside the other checks (a pool of model-driver processes); its result is awaited where it is needed
+    global _POOL, _DRV
+    if _DRV is None:
+        _DRV = kv.build_model_driver()
+    if _POOL is None:
+        from concurrent.futures import ThreadPoolExecutor
+        _POOL = ThreadPoolExecutor(max_workers=6)
+    an["check_f"] = _POOL.submit(model_check, nl, entries[:cut])
+    an["cut"] = cut
     c.meta["an"] = an
     return an
 
@@ -345,140 +574,306 @@ def summary(c, an):
     """the run in the shape of the model's prediction"""
     r = an["r"]
     k = c.meta["k"]
-    ok = 1 if (an["gap"] is None and an["order"] is None) else 0
+    ok = 1 if (an["gap"] is None and an["order"] is None and an["told"] is None and an["kernel"] is None) else 0
     waits = r["waited"][:k] if len(r["waited"]) >= k else r["waited"]
-    who = (r["who"][-1][1] + 1) if r["who"] else 0
-    return "(L (N %d) (L%s) (N %d))" % (ok, "".join(" (N %d)" % w for w in waits), who)
+    ids = [p[P_ID] for p in r["probes"] if p[P_OUT] == 0]
+    who = (ids[-1] + 1) if ids else 0
+    late = [1 if all(any(w[0] == h and w[1] == kind and w[3] for w in r["waiters"]) for kind in (1, 2)) else 0 for h in range(k)]
+    return "(L (N %d) (L%s) (N %d) (L%s))" % (ok, "".join(" (N %d)" % w for w in waits), who, "".join(" (N %d)" % w for w in late))
 
 
 def compare(c, i, m):
     if c.meta.get("kind") == "malformed":
         return i == m
     an = analyse(c, i)
-    if an is None:
+    if an is None or "crash" in an:
         return False
     try:
         mm = py(kv.xparse(m))
-        ms = "(L (N %d) (L%s) (N %d))" % (mm[0], "".join(" (N %d)" % w for w in mm[1]), mm[2])
+        ms = "(L (N %d) (L%s) (N %d) (L%s))" % (mm[0], "".join(" (N %d)" % w for w in mm[1]), mm[2], "".join(" (N %d)" % w for w in mm[5]))
     except Exception:
-        return False
-    if an["r"]["stalled"] != 0:
         return False
     return summary(c, an) == ms and mm[3] == 1 and all(mm[4])
 
 
-def extra_oracle(c, i):
+def complaints(c, i, fast=False):
+    """[(timing, text)]: timing = the complaint is that something did not happen within a time limit (it is confirmed by a second
+    run before it becomes a verdict, see is_trouble)"""
     if c.meta.get("kind") == "malformed":
-        return None
-    if i.startswith("(L (N 94)"):
-        return ("the first instance did not come up: execute() did not return, or nobody answered 'whoami' on its control socket "
-                "within 20 s")
+        return []
+    if i.startswith("(L (N 94) (N 6))"):
+        return [(True, "execute() of the first instance returned, but nobody answered at the control-socket path within 30 s%s"
+                 % (" (a stale socket file was at the path)" if c.meta.get("stale") else ""))]
     an = analyse(c, i)
     if an is None:
-        return None
+        return []
+    if "crash" in an:
+        return [(False, "the run's output could not be analysed: " + an["crash"])]
+    if "why" in an:
+        return an["why"]
     r = an["r"]
     k = c.meta["k"]
     why = []
+    ports = r["ports"]
+
+    def where(e):
+        return "%s request, client port %d -> port %d%s, sent at %d us" % (KINDS[e[X_KIND]], e[X_LOCAL], ports[e[X_PORT]],
+                                                                           " (IPv6)" if e[X_V6] else "", e[X_T0])
     # (a) oracle independent of the model
     if an["refused"]:
         e = an["refused"][0]
-        why.append("%d connect(s) refused during the handover, the first at %d us on port %d: no instance was listening"
-                   % (len(an["refused"]), e[3], r["ports"][e[2]]))
+        why.append((False, "%d connect(s) refused during the handover, the first at %d us on port %d%s: no instance was listening"
+                    % (len(an["refused"]), e[X_T0], ports[e[X_PORT]], " (IPv6)" if e[X_V6] else "")))
     if an["bad_acc"]:
         e = an["bad_acc"][0]
-        why.append("%d request(s) on connections that an instance had accepted got no complete answer (result %d, client port %d, "
-                   "%s, sent at %d us)" % (len(an["bad_acc"]), e[5], e[1], "slow handler" if e[0] else "fast", e[3]))
+        why.append((e[X_RES] == 4, "%d request(s) on connections that an instance had accepted got no complete answer (result %d; %s)"
+                    % (len(an["bad_acc"]), e[X_RES], where(e))))
+    if an["bad_read"]:
+        e = an["bad_read"][0]
+        why.append((e[X_RES] == 4, "%d request(s) that an instance had read got no complete answer (result %d; %s)"
+                    % (len(an["bad_read"]), e[X_RES], where(e))))
     if an["lost"]:
         e = an["lost"][0]
-        why.append("%d request(s) neither answered nor reset within the time limit, or connect failed with an unexpected error "
-                   "(result %d, client port / errno %d)" % (len(an["lost"]), e[5], e[1]))
-    if an["gap"]:
-        why.append("hook log: " + an["gap"])
-    if an["order"]:
-        why.append("hook log: " + an["order"])
+        why.append((True, "%d request(s) neither answered nor reset within the time limit, or connect failed with an unexpected error "
+                    "(result %d, client port / errno %d)" % (len(an["lost"]), e[X_RES], e[X_LOCAL])))
+    if an["wrong_who"]:
+        e, a = an["wrong_who"][0]
+        why.append((False, "%d answer(s) name another instance than the one that accepted the connection (accepted by %d, answer says %d; %s)"
+                    % (len(an["wrong_who"]), a, e[X_WHO] - 1, where(e))))
+    if an["ka_over"]:
+        (cid, w), v = an["ka_over"][0]
+        why.append((False, "keep-alive: instance %d answered %d requests on one connection (client port %d) that were sent after it had set "
+                    "its shutdown flag (at %d us; requests sent at %s us): a connection accepted before the handover must be closed "
+                    "after at most one more request" % (w, len(v), v[0][X_LOCAL], an["t_set"][w], ", ".join(str(e[X_T0]) for e in v[:6]))))
+    for e in an["idle"]:
+        if e[X_RES] == 12:
+            why.append((True, "an idle kept-alive connection (client port %d) was still open %d ms after its last answer"
+                        % (e[X_LOCAL], (e[X_T1] - e[X_T0]) // 1000)))
+        elif e[X_RES] != 10:
+            why.append((False, "an idle kept-alive connection (client port %d) was not closed cleanly (result %d)" % (e[X_LOCAL], e[X_RES])))
+    for what in ("gap", "order", "told"):
+        if an[what]:
+            why.append((False, "hook log: " + an[what]))
+    if an["kernel"]:
+        why.append((False, "kernel: " + an["kernel"]))
     if len(r["executed"]) != k + 1 or not all(r["executed"]):
-        why.append("execute() of an instance did not return: %s" % r["executed"])
+        why.append((True, "execute() of an instance did not return: %s" % r["executed"]))
     for h, t in enumerate(r["timings"]):
+        if len(t) < 6:
+            continue
         if not t[3]:
-            why.append("wait() of instance %d had not resolved %d ms after its successor was started" % (h, (t[4] - t[0]) // 1000))
+            why.append((True, "wait() of instance %d (called right after execute()) had not resolved %d ms after its successor was started"
+                        % (h, (t[4] - t[0]) // 1000)))
         if not t[5]:
-            why.append("instance %d did not answer on the control socket within 10 s after its start" % (h + 1))
-    ids = [w[1] for w in r["who"]]
+            why.append((True, "instance %d did not answer on the control socket within 15 s after its start" % (h + 1)))
+    # every wait() resolves: the one called when the instance was told to shut down and the one called after its shutdown had completed
+    for h, t in enumerate(r["timings"]):
+        if len(t) < 6 or not t[3]:
+            continue
+        for kind, txt in ((1, "when the instance was told to shut down"), (2, "after its shutdown had completed")):
+            ws = [w for w in r["waiters"] if w[0] == h and w[1] == kind]
+            if not ws:
+                why.append((True, "no wait() could be called on instance %d %s (the moment was not seen in the hook log)" % (h, txt)))
+            elif ws[0][3] == 0:
+                why.append((True, "wait() of instance %d called %s (at %d us) never resolved, although the wait() called right after "
+                            "execute() did" % (h, txt, ws[0][2])))
+    # the control socket: answered by instances in increasing order, finally by the newest, and by an instance without a break from
+    # its first answer until it is told to shut down
+    probes = r["probes"]
+    ids = [p[P_ID] for p in probes if p[P_OUT] == 0]
     if ids != sorted(ids):
-        why.append("control socket answered by an older instance after a newer one had answered: %s" % ids)
+        why.append((False, "control socket answered by an older instance after a newer one had answered: %s" % ids))
     if ids and ids[-1] != k:
-        why.append("control socket finally answered by instance %d, not by the newest (%d)" % (ids[-1], k))
+        why.append((False, "control socket finally answered by instance %d, not by the newest (%d)" % (ids[-1], k)))
+    first = {}
+    for p in probes:
+        if p[P_OUT] == 0 and p[P_ID] not in first:
+            first[p[P_ID]] = p[P_E0]
+    for j, t_first in sorted(first.items()):
+        t_end = an["t_told"].get(j, 1 << 62)
+        for p in probes:
+            # a probe that began after the instance's first answer and ended before the instance was told to shut down
+            if t_first < p[P_S0] and p[P_E0] < t_end and not (p[P_OUT] == 0 and p[P_ID] == j):
+                what = {0: "instance %d answered" % p[P_ID], 1: "nobody listened (NotFound)", 2: "the exchange failed (Error)",
+                        3: "no answer within 5 s", 4: "a garbled answer came"}[p[P_OUT]]
+                why.append((p[P_OUT] == 3, "control socket: instance %d answered first at %d us and was not told to shut down before %s, but "
+                            "at %d us (%d probe(s) until %d us) %s"
+                            % (j, t_first, ("%d us" % t_end) if t_end < (1 << 62) else "the end", p[P_S0], p[P_CNT], p[P_E1], what)))
+                break
     if not r["refuses_after"]:
-        why.append("a port still accepts after every instance was shut down")
+        why.append((False, "a port still accepts after every instance was shut down"))
+    if fast:
+        return why
     # (b) trace inclusion: the model accepts the log, and every port is served in every state along it
+    if "check" not in an:
+        an["check"] = an["check_f"].result()
     chk = an["check"]
+    if an["unknown"]:
+        name, inst = an["unknown"][0]
+        why.append((False, "the hook log contains a point that is no step of Model/Handover.v: %s of instance %d (%d such point(s); "
+                    "ctl.got 2 = ctl::listen got Response::Error or a reply that is not 'ok' and runs without a control socket)"
+                    % (name, inst, len(an["unknown"]))))
     if chk is None:
-        why.append("the model could not check the log")
+        why.append((False, "the model could not check the log"))
     else:
         acc, unserved, bad = chk
         if bad:
             n = bad[0][0]
             src = r["events"][an["src"][n]] if n < len(an["src"]) else None
-            why.append("the hook log is not a trace of Model/Handover.v: entry %d (%s; raw event %s) -> model says %d"
-                       % (n, kv.pretty(an["entries"][n][0], 80) + " obs %d" % an["entries"][n][1], src, bad[0][1]))
-        elif acc != len(an["entries"]):
-            why.append("the model stopped after %d of %d log entries" % (acc, len(an["entries"])))
+            why.append((False, "the hook log is not a trace of Model/Handover.v: entry %d (%s; raw event %s) -> model says %d"
+                        % (n, kv.pretty(an["entries"][n][0], 80) + " obs %d" % an["entries"][n][1], src, bad[0][1])))
+        elif acc != an["cut"]:
+            why.append((False, "the model stopped after %d of %d log entries" % (acc, an["cut"])))
         if unserved:
-            why.append("running the log through the model: some port is served by no instance after entry %d" % (unserved - 1))
-    return "; ".join(why) if why else None
+            why.append((False, "running the log through the model: some listener's port is served by no instance after entry %d" % (unserved - 1)))
+    # the verdict of this output is final: keep it, let the log go (a thorough run holds hundreds of them)
+    an["why"] = why
+    an["n_entries"] = len(an["entries"])
+    an["entries"] = an["src"] = None
+    r["events"] = r["exchanges"] = None
+    an.pop("check_f", None)
+    return why
+
+
+def extra_oracle(c, i):
+    why = complaints(c, i)
+    return "; ".join(t for _, t in why) if why else None
+
+
+def is_trouble(c, i):
+    """Harness trouble (not an outcome of the code): the case is run again, up to two more times; what still cannot be executed is
+    counted and named as not_executed (too many of them fail the check as a harness error).
+    * (L (N 93) ...) / (L (N 96) (N ..)): the harness could not run the case (ports, build without hooks ...);
+    * (L (N 94) (N 4|5)): execute() of the first instance did not return within 30 s ((N 6): it returned but nobody answers at the
+      path - a complaint of the "not within the time limit" kind);
+    * a thread waited 20 s for the baton (`stalled`): the log is not serialised;
+    * all complaints are of the kind "did not happen within the time limit": confirmed by a second run before it is a verdict."""
+    if c.meta.get("kind") == "malformed":
+        return False
+    if re.match(r"\(L \(N 93\)|\(L \(N 96\) \((N|B) |\(L \(N 94\) \(N [45]\)", i):
+        return True
+    if c.meta.get("kind") == "replay":
+        return False
+    if not i.startswith("(L (N 94)"):
+        an = analyse(c, i)
+        if an is None or "crash" in an:
+            return False
+        if an["r"]["stalled"] != 0:
+            return True
+    why = complaints(c, i, fast=True)
+    if not why or not all(t for t, _ in why):
+        return False
+    why = complaints(c, i)
+    if why and all(t for t, _ in why):
+        if i.startswith("(L (N 94)"):
+            # the same text every time: count the looks (one per attempt)
+            c.meta["n94"] = c.meta.get("n94", 0) + 1
+            return c.meta["n94"] < 2
+        seen = c.meta.setdefault("timing_seen", [])
+        if hash(i) not in seen:
+            seen.append(hash(i))
+        return len(seen) < 2
+    return False
+
+
+MAX_NOT_EXECUTED = 2
 
 
 def classify(c, i):
     return None
 
 
-def case(n, k, flavour, seed, jitter, d_bind, d_send, d_close, slow_ms, nslow, gap, kind):
-    x = xl(*[xn(v) for v in (n, k, flavour, seed, jitter, d_bind, d_send, d_close, slow_ms, nslow, gap, 0)])
-    return Case("handover.run", x, None, {"kind": kind, "k": k, "n": n, "flavour": flavour}, "dev")
+def D(name, ms, reps=1, frm=0):
+    return (name, ms, reps, frm)
+
+
+def case(n, k, flavour, seed, jitter, delays, slow_ms, nslow, gap, kind, eager=0, ka=0, dual=0, stale=0, block=0):
+    ds = xlist([xl(xb(name), xn(ms), xn(reps), xn(frm)) for name, ms, reps, frm in delays])
+    x = xl(xn(n), xn(k), xn(flavour), xn(seed), xn(jitter), ds, xn(slow_ms), xn(nslow), xn(gap), xn(eager), xn(ka), xn(dual),
+           xn(stale), xn(block))
+    return Case("handover.run", x, None, {"kind": kind, "k": k, "n": n, "flavour": flavour, "dual": dual, "ka": ka, "eager": eager,
+                                          "stale": stale, "delays": [d[0] for d in delays]}, "dev")
+
+
+# every hook point; the ones of the start-up program are delayed in successors only
+STARTUP_HOOKS = ["ex.bind", "hx.listen", "ex.bound", "ctl.send", "ctl.got", "ctl.started"]
+OTHER_HOOKS = ["ctl.recv", "ctl.reply", "sh.enter", "sh.set", "sh.init", "sh.swap", "sh.notify", "sh.exit", "ap.poll", "ap.flag", "ap.waker",
+               "ap.checked", "al.top", "al.got", "al.counted", "al.shut", "al.exit", "rm.enter", "rm.dec", "rm.flag", "rm.exit", "co.start",
+               "ct.start", "ct.sent", "ct.loop", "ct.exit", "hx.req", "hx.resp", "hx.cont"]
+
+
+def random_delays(rng):
+    out = []
+    for _ in range(rng.choice([0, 1, 1, 2, 3])):
+        if rng.random() < 0.45:
+            name, frm = rng.choice(STARTUP_HOOKS), 1
+        else:
+            name, frm = rng.choice(OTHER_HOOKS), 0
+        ms = rng.choice([5, 40, 120, 300])
+        reps = rng.choice([1, 2, 4]) if ms <= 120 else rng.choice([1, 2])
+        out.append(D(name, ms, reps, frm))
+    return out
 
 
 def generate(rng, tier):
     quick = tier == "quick"
     cases = []
     # the witness schedule of always_bound_today_refuted: the bind point of the successor is delayed (multi-thread runtime)
-    cases.append(case(1, 1, 1, 7, 100, 300, 0, 0, 200, 1, 60, "bind-delayed"))
-    cases.append(case(2, 1, 1, 8, 100, 150, 0, 0, 150, 2, 50, "bind-delayed"))
-    cases.append(case(1, 1, 0, 9, 100, 200, 0, 0, 150, 1, 50, "bind-delayed"))
-    cases.append(case(2, 3, 0, 10, 200, 20, 10, 30, 150, 2, 40, "chain"))
-    cases.append(case(1, 3, 1, 11, 200, 10, 20, 20, 120, 1, 40, "chain"))
-    cases.append(case(2, 2, 1, 12, 50, 0, 0, 120, 300, 2, 40, "close-delayed"))
-    cases.append(case(1, 1, 0, 13, 0, 0, 0, 0, 400, 3, 40, "slow-spanning"))
-    cases.append(case(3, 1, 1, 14, 300, 30, 100, 0, 100, 3, 40, "send-delayed"))
-    for x in [xn(3), xl(xn(1)), xl(*[xn(0)] * 12), xl(*([xn(1)] * 11 + [xl()]))]:
+    cases.append(case(1, 1, 1, 7, 100, [D("ex.bind", 300, 8, 1)], 200, 1, 60, "bind-delayed"))
+    cases.append(case(2, 1, 1, 8, 100, [D("ex.bind", 150, 8, 1)], 150, 2, 50, "bind-delayed", ka=1))
+    cases.append(case(1, 1, 0, 9, 100, [D("ex.bind", 200, 8, 1)], 150, 1, 50, "bind-delayed"))
+    # between bind() and listen()
+    cases.append(case(2, 1, 1, 15, 100, [D("hx.listen", 200, 8, 1)], 150, 1, 50, "listen-delayed", ka=1))
+    cases.append(case(1, 2, 0, 16, 100, [D("hx.listen", 120, 8, 1), D("ctl.recv", 40, 1, 0)], 100, 1, 40, "listen-delayed", dual=1))
+    cases.append(case(2, 3, 0, 10, 200, [D("ex.bind", 20, 8, 1), D("ctl.send", 10, 1, 1), D("al.shut", 30, 8, 0)], 150, 2, 40, "chain", ka=1))
+    cases.append(case(1, 3, 1, 11, 200, [D("ex.bind", 10, 8, 1), D("ctl.send", 20, 1, 1), D("al.shut", 20, 8, 0)], 120, 1, 40, "chain", ka=1))
+    cases.append(case(2, 2, 1, 12, 50, [D("al.shut", 120, 8, 0)], 300, 2, 40, "close-delayed", ka=1))
+    cases.append(case(1, 1, 0, 13, 0, [], 400, 3, 40, "slow-spanning"))
+    cases.append(case(3, 1, 1, 14, 300, [D("ex.bind", 30, 8, 1), D("ctl.send", 100, 1, 1)], 100, 3, 40, "send-delayed"))
+    # keep-alive connections across the switch, both address families, a stale socket file before the first instance
+    cases.append(case(1, 2, 1, 17, 100, [D("ctl.reply", 60, 1, 0)], 150, 1, 60, "keep-alive", ka=1, dual=1))
+    cases.append(case(2, 1, 0, 18, 100, [D("sh.notify", 80, 1, 0)], 120, 0, 60, "keep-alive", ka=1, stale=1))
+    cases.append(case(1, 1, 1, 19, 50, [], 60, 0, 40, "idle-keep-alive", ka=2))
+    # the witness of eager_start_refuted: every successor is started as soon as execute() of its predecessor has returned, while
+    # the predecessor's main task keeps its thread busy (current-thread runtime: its control-socket task cannot run)
+    cases.append(case(1, 2, 0, 5, 100, [], 100, 1, 50, "eager-start", eager=1, block=400))
+    cases.append(case(2, 3, 0, 6, 100, [D("ctl.started", 30, 1, 1)], 120, 2, 40, "eager-start", eager=1, block=250, ka=1))
+    for x in [xn(3), xl(xn(1)), xl(*[xn(0)] * 14), xl(*([xn(1)] * 13 + [xl()]))]:
         cases.append(Case("handover.run", x, None, {"kind": "malformed"}, "dev"))
-    nrand = 12 if quick else 300
+    nrand = 10 if quick else 300
     for _ in range(nrand):
         n = rng.choice([1, 1, 2, 2, 3])
-        k = rng.choice([1, 1, 2, 3] if quick else [1, 1, 2, 2, 3, 4])
+        k = rng.choice([1, 1, 2, 3] if quick else [1, 1, 2, 2, 3, 4, 5])
         fl = rng.choice([0, 1])
         jitter = rng.choice([0, 50, 200, 600])
-        d_bind = rng.choice([0, 0, 5, 40, 120])
-        d_send = rng.choice([0, 0, 5, 40])
-        d_close = rng.choice([0, 0, 5, 40, 100])
         slow = rng.choice([60, 150, 300])
         nslow = rng.choice([0, 1, 2, 3])
         gap = rng.choice([25, 40, 70])
-        cases.append(case(n, k, fl, rng.randrange(1, 1 << 30), jitter, d_bind, d_send, d_close, slow, nslow, gap, "random"))
+        ka = rng.choice([0, 1, 1]) if quick else rng.choice([0, 1, 1, 1, 2, 3])
+        if ka & 2:
+            k = min(k, 2)
+        dual = rng.choice([0, 0, 1])
+        stale = rng.choice([0, 0, 0, 1])
+        eager = rng.choice([0, 0, 1])
+        block = rng.choice([0, 60, 300]) if eager else 0
+        cases.append(case(n, k, fl, rng.randrange(1, 1 << 30), jitter, random_delays(rng), slow, nslow, gap, "random", ka=ka, dual=dual,
+                          stale=stale, eager=eager, block=block))
     return cases
 
 
 def signature(c, m):
     if c.meta.get("kind") == "malformed":
         return None
-    return "%s/%s/%s" % (c.meta.get("n"), c.meta.get("k"), c.meta.get("flavour")) + m[:40]
+    return "%s/%s/%s/%s/%s" % (c.meta.get("n"), c.meta.get("k"), c.meta.get("flavour"), c.meta.get("dual"), c.meta.get("ka")) + m[:40]
 
 
 def directed(rng, mismatches):
     out = []
     for fl in (1, 0):
         for d in (300, 120):
-            out.append(case(1, 1, fl, rng.randrange(1, 1 << 30), 100, d, 0, 0, 150, 1, 50, "directed-bind-delayed"))
-            out.append(case(2, 2, fl, rng.randrange(1, 1 << 30), 100, d, 0, 50, 150, 2, 50, "directed-bind-delayed"))
+            out.append(case(1, 1, fl, rng.randrange(1, 1 << 30), 100, [D("ex.bind", d, 8, 1)], 150, 1, 50, "directed-bind-delayed"))
+            out.append(case(2, 2, fl, rng.randrange(1, 1 << 30), 100, [D("hx.listen", d, 8, 1), D("al.shut", 50, 8, 0)], 150, 2, 50,
+                            "directed-listen-delayed", ka=1))
     return out
 
 
@@ -486,77 +881,126 @@ def describe(c):
     d = {"component": c.comp, "kind": c.meta.get("kind"), "input": kv.pretty(c.x, 300)}
     if "k" in c.meta:
         d["ports/handovers/runtime"] = [c.meta["n"], c.meta["k"], "multi-thread" if c.meta["flavour"] else "current-thread"]
+        d["both address families / keep-alive clients / delayed hook points"] = [c.meta["dual"], c.meta["ka"], c.meta["delays"]]
     return d
 
 
 def extra_coverage(cases, impl, model, spec):
-    tot = dict(handovers=0, exchanges=0, complete=0, slow_complete=0, kernel_queue_resets=0, refused=0, log_entries=0, runs_multi_thread=0,
-               runs_current_thread=0)
+    tot = dict(handovers=0, exchanges=0, complete=0, slow_complete=0, keep_alive_complete=0, keep_alive_connections_spanning_a_switch=0,
+               keep_alive_closed_between_requests=0, ipv6_complete=0, kernel_queue_resets=0, refused=0, log_entries=0, runs_multi_thread=0,
+               runs_current_thread=0, late_waiters_resolved=0, probes=0, idle_connections_closed_by_the_server=0)
+    delayed = {}
     for c in cases:
         an = c.meta.get("an")
-        if not an:
+        if not an or "crash" in an:
             continue
         tot["handovers"] += c.meta["k"]
         tot["exchanges"] += an["total"]
         tot["complete"] += an["complete"]
         tot["slow_complete"] += an["slow_complete"]
+        tot["keep_alive_complete"] += an["ka_complete"]
+        tot["keep_alive_connections_spanning_a_switch"] += an["ka_spanning"]
+        tot["keep_alive_closed_between_requests"] += an["ka_closed"]
+        tot["ipv6_complete"] += an["v6_complete"]
         tot["kernel_queue_resets"] += an["kernel_reset"]
         tot["refused"] += len(an["refused"])
-        tot["log_entries"] += len(an["entries"])
+        tot["log_entries"] += an.get("n_entries") or len(an["entries"] or ())
+        tot["late_waiters_resolved"] += sum(1 for w in an["r"]["waiters"] if w[3])
+        tot["probes"] += sum(p[P_CNT] for p in an["r"]["probes"])
+        tot["idle_connections_closed_by_the_server"] += sum(1 for e in an["idle"] if e[X_RES] == 10)
         tot["runs_multi_thread" if c.meta["flavour"] else "runs_current_thread"] += 1
+        for d in c.meta.get("delays", ()):
+            delayed[d] = delayed.get(d, 0) + 1
+    tot["runs_with_a_delay_at_hook_point"] = dict(sorted(delayed.items()))
     tot["note"] = ("kernel_queue_resets = connections that were queued by the kernel on a listener of the predecessor, never returned by "
-                   "accept(), and reset when that listener was closed: outside the model, counted, not a verdict")
+                   "accept(), and reset when that listener was closed: outside the model, counted, not a verdict. "
+                   "keep_alive_closed_between_requests = a request written on a kept-alive connection that the server had closed after "
+                   "the previous answer (no instance read it; the client repeats it on a new connection)")
     return {"handover_runs": tot}
 
 
-RULE = ("Chains of 1-4 handovers between real servers in one process (RunConfig::execute on 1-3 IPv4 loopback ports, the same "
-        "control-socket path, one tokio runtime per instance: current-thread or multi-thread with 2 workers), built with the cargo feature "
-        "verif-hooks. The hook points (listener bind, handover message sent / received / replied, control socket started, and C10's "
-        "points in shutdown(), the accept future, the accept loop, remove_connection and the completion task) are serialised by a baton: "
-        "between two hook points that enclose an access to shared state only one thread runs, so the order of the log is the order of "
-        "the accesses; before each point a thread waits a seeded random time (0-600 us) and, at the bind / send / close points, a "
-        "delay of 0-300 ms taken from the case. A successor is started when its predecessor answers on the control socket. One "
-        "uninstrumented client thread per port requests back to back, 0-3 requests with a slow handler (60-400 ms) are in flight "
-        "across every switch; a prober asks the control socket who answers (plugin 'whoami'). Checks per run: (a) oracle independent "
-        "of the model: no connect refused, every request on a connection that an instance accepted (peer port seen at the accept hook) "
-        "answered completely, nothing unanswered after 8 s, from the bind/close hook events every port bound by some instance at "
-        "every moment and no listener closed before the successor has bound every port, execute() returns, the predecessor's wait() "
-        "resolves within slow handler + 10 s, the control socket is answered by instances in increasing order and finally by the newest, "
-        "the ports refuse after the last shutdown; (b) trace inclusion: the log, mapped to labels with the program counter each hook "
-        "reported, is accepted step by step by Model/Handover.v's hstep (extracted), with every port served in every state along it; "
-        "(c) the run's summary equals the model's prediction for the scenario (hdrain). Connections reset in the kernel's accept queue of "
-        "a closing listener are counted separately (not modelled). distinct_nontrivial counts scenarios by ports/handovers/runtime")
+RULE = ("Chains of 1-5 handovers between real servers in one process (RunConfig::execute on 1-3 loopback ports, IPv4 only or both address "
+        "families = two listening sockets per port; the same control-socket path; one tokio runtime per instance: current-thread or "
+        "multi-thread with 2 workers), built with the cargo feature verif-hooks. An instance is a process: its thread drops the runtime "
+        "with every task as soon as its wait() has returned. The hook points (HOOK_POINTS in driver/props/c11.py: bind / listen / listening, "
+        "handover message sent / received / replied, start_at returned, request read / answered / keep-alive re-check, and C10's points in "
+        "shutdown(), the accept future, the accept loop, remove_connection and the completion task) are serialised by a baton: between two "
+        "hook points that enclose an access to shared state only one thread runs, so the order of the log is the order of the accesses; "
+        "before each point a thread waits a seeded random time (0-600 us) and, at up to three hook points drawn from ALL points, a delay of "
+        "5-300 ms taken from the case (applied to the instance that is starting and to instances that are being replaced). A successor is "
+        "started when its predecessor answers on the control socket, or (eager) as soon as execute() of its predecessor has returned, the "
+        "predecessor's main task blocking its thread for 0-400 ms; optionally a stale socket file lies at the path before the first instance. "
+        "Uninstrumented clients: per port and family a back-to-back client (one request per connection), 0-3 requests with a slow handler "
+        "(60-400 ms) in flight across every switch, per port a keep-alive client (a request every 2-8 ms on one connection for as long as "
+        "the server keeps it), an idle keep-alive connection (one request, then silence until the server closes it); every answer names the "
+        "instance that wrote it. wait() is called on every instance right after execute(), when it is told to shut down, and after its "
+        "shutdown has completed. A prober asks the control socket who answers (plugin 'whoami') every 2 ms and records every outcome. "
+        "Checks per run: (a) oracle independent of the model: no connect refused; every request on a connection that an instance accepted "
+        "(peer port seen at the accept hook) or that an instance read (request hook) answered completely — a request written on a kept-alive "
+        "connection after the server closed it is not one; the answer names the accepting instance; on one connection an instance answers at "
+        "most one request sent after it set its shutdown flag; an idle connection is closed by the server; from the listen/close hook events "
+        "every port has a listening socket of some instance at every moment, no listener is closed and no instance is told before the successor "
+        "has every socket listening, and by the kernel (SO_ACCEPTCONN of the process' sockets, read when the successor is about to send the handover "
+        "message) the predecessor's and the successor's sockets on every port are in listening state; execute() returns; all three wait() calls of every predecessor resolve (the first within slow handler + "
+        "15 s, the others within 5 s of it); the control socket is answered by instances in increasing order, finally by the newest, and from "
+        "an instance's first answer until it is told by that instance and nobody else at every probe (no NotFound, no Error); the ports refuse "
+        "after the last shutdown; (b) trace inclusion: the log, mapped to labels with the program counter each hook reported, is accepted "
+        "step by step by Model/Handover.v's hstep (extracted, variant hrepaired), with every socket's port served in every state along it; "
+        "(c) the run's summary equals the model's prediction for the scenario (hdrain + a late wait() on every predecessor). Complaints of "
+        "the kind 'did not happen within the time limit' become a verdict only when a second run of the case shows one again; a baton wait "
+        "of 20 s, a first instance that does not come up in 30 s and port trouble are harness trouble: run again, then counted and named as "
+        "not executed (more than 2: the check fails as a harness error). Connections reset in the kernel's accept queue of a closing "
+        "listener are counted separately (not modelled). distinct_nontrivial counts scenarios by ports/handovers/runtime/families/keep-alive")
+
 ASSUMPTIONS = [
-    "a new instance is started only when the newest one is up (execute() returned and its control socket is bound): the model's HStart "
-    "is enabled only then; a successor started before its predecessor's control-socket task has bound the path would not find it "
-    "(start_at binds in a spawned task) — not exercised, not claimed",
+    "a new instance is started only when execute() of the newest one has returned (the model's HStart is enabled only then). Starts that "
+    "overlap the start-up of the previous instance (two instances inside execute() at once) are not modelled and not run: both would send "
+    "'shutdown no-wait' to the same predecessor and each would remove the other's socket file in start_at — stated, not claimed",
     "the only caller of shutdown() on an instance is the control socket's shutdown plugin (a second call, e.g. from a signal handler, would "
-    "remove whatever socket file is at the path, also the successor's; kvarn_signal re-binds after 100 ms when its file is deleted)",
-    "C10's assumptions for each instance's shutdown machine: sequentially consistent interleavings, every handler ends",
+    "remove whatever socket file is at the path, also the successor's; kvarn_signal re-binds after ~200 ms when its file is deleted — that "
+    "watcher is not in the model)",
+    "the predecessor is healthy and has the stock shutdown plugin: the exits of ctl::listen on Response::Error or on a reply that is not 'ok' "
+    "(the new instance then runs without a control socket) are not transitions of the model; the run rejects a log that contains one. The "
+    "NotFound exit (no file, or a stale file nobody listens on) is modelled and run",
+    "C10's assumptions for each instance's shutdown machine: sequentially consistent interleavings, every handler ends; a kept-alive "
+    "connection ends at the latest when no request head arrives for 5 s (application.rs; label HKaEnd is always enabled while the loop waits)",
+    "HTTP/1.1 connections only (the request loop awaits each answer before the re-check; HTTP/2 and HTTP/3 connections spawn their "
+    "requests and are not run); no TLS listener, no HTTP/3 (UDP) listener",
     "Linux SO_REUSEPORT semantics are not modelled: which listener a connection is queued on, and the reset of connections still queued on a "
     "listener when it is closed (tests/shutdown.rs ignores ConnectionReset for the same reason); 'accepted' = returned by accept()",
-    "uring builds (one listener per thread, created inside the thread) are not covered by the fix nor by the run",
+    "uring builds (one listener per thread, created inside the thread) and builds without graceful-shutdown (ctl::listen runs before the "
+    "listeners are created) are not covered by the fixes nor by the run",
 ]
-TRUSTED = ["modelled: src/lib.rs RunConfig::execute (listener creation, accept-task spawn, ctl::listen call), src/ctl.rs listen + shutdown "
-           "plugin, signal/src/lib.rs send_to/start_at (connect, reply, remove file, bind in task), src/shutdown.rs shutdown() removing the "
-           "socket file; per instance C10's model of the shutdown manager",
-           "hook points: kvarn commits listed in hooks.json; the baton, the clients and the log-to-label mapping (driver/props/c11.py "
-           "Mapper) are harness code: a wrong mapping can only make the model reject a log"]
-LEVEL_TEXT = ("Machine-checked Coq theorems over an executable transition system of a chain of instances (any number of ports, any number of "
-              "successive handovers, every schedule), each instance embedding C10's transition system of its shutdown manager: in every "
-              "reachable state of the repaired code every port is bound and listening in some instance (always_bound); a listener is closed "
-              "only when the successor exists and has bound every port (successor_binds_first); for every instance the shutdown-complete "
-              "signal implies that no accepted connection is unfinished and no listener is bound (handover_drains) and every instance that "
-              "received the handover message has completed whenever nothing can move (handover_no_hang: its wait() resolves); the path of the "
-              "control socket is answered by the newest instance, or by its predecessor only while the newest is still inside execute() "
-              "(ctl_successor_only); chain states all clauses for chains of any length. For kvarn 0.6.3 as found (listeners bound inside "
-              "the spawned accept tasks) always_bound is refuted by an explicit schedule, observed on the real code (230 refused connects "
-              "with a 300 ms delay at the bind point on a multi-thread runtime) and repaired by one fix commit. PARTIAL: what the kernel does with "
+TRUSTED = ["modelled: src/lib.rs RunConfig::execute (socket creation, bind, listen, accept-task spawn, ctl::listen call), accept(), the request "
+           "loop of handle_connection (request read, continue_accepting() after every answer); src/ctl.rs listen + shutdown plugin; "
+           "signal/src/lib.rs send_to/start_at (connect, reply, remove file, bind before returning); src/shutdown.rs shutdown() removing the "
+           "socket file, wait() on a receiver that has seen nothing; per instance C10's model of the shutdown manager",
+           "hook points: kvarn commits listed in hooks.json, their meaning in HOOK_POINTS (driver/props/c11.py); the baton, the clients, the "
+           "waiters, the prober and the log-to-label mapping (Mapper; 'the start-up program' of an instance = the thread that passes ctl.send) "
+           "are harness code: a wrong mapping can only make the model reject a log"]
+LEVEL_TEXT = ("Machine-checked Coq theorems over an executable transition system of a chain of instances (any number of listening sockets, any "
+              "number of successive handovers, every schedule at hook granularity), each instance embedding C10's transition system of its "
+              "shutdown manager and running the keep-alive request loop on every connection: in every reachable state of the repaired code "
+              "every socket's port is bound AND listening in some instance (always_bound; bind and listen are separate steps); an instance is "
+              "told to shut down — the message is on its control socket or its plugin has run — only when the successor exists and has every "
+              "socket listening (told_after_bound), and a listener is closed only then (successor_binds_first); for every instance the "
+              "shutdown-complete signal implies that no accepted connection is unfinished and no listener is bound (handover_drains); a "
+              "connection reads at most one request after its instance's shutdown flag was set (keepalive_one_more); every instance that "
+              "received the handover message has completed whenever nothing can move, kept-alive connections included, and every wait() called "
+              "at any time has resolved (handover_no_hang); a wait() polled after the signal resolves at that poll whenever it was called "
+              "(late_wait_resolves); the control-socket path is answered by the newest instance, or by its predecessor only while the newest is "
+              "still inside execute() (ctl_successor_only), it IS answered by the newest whenever nothing can move (ctl_successor_answers) and "
+              "no step of any thread takes it away from the newest (path_stable); chain states all clauses for chains of any length. Two "
+              "defects of kvarn 0.6.3 are refuted on the faithful model, observed on the real code and repaired by one fix commit each: "
+              "listeners bound inside the spawned accept tasks (always_bound_today_refuted; 230 refused connects with a 300 ms delay at the "
+              "bind point) and the control socket bound by a spawned task after execute() has returned (eager_start_refuted: a successor "
+              "started right then finds no socket, two instances stay for ever, the older one answers). PARTIAL: what the kernel does with "
               "connections queued on a SO_REUSEPORT listener that is closed (they are reset: seen in the runs, counted, not modelled) and "
-              "inherited descriptors are outside the model; only the ordering of bind / notify / close and the drain logic are proved. Not "
-              "proved: that the successor's socket file stays at the path afterwards (checked by the run), termination (as in C10). The "
-              "model is tied to the repository on every run by trace inclusion of the serialised hook log of real handovers.")
-LEVEL_NOTE = ("Trusted: Coq kernel; extraction reduced by an in-kernel recheck sample; the transcription of execute()/ctl::listen/start_at as "
-              "validated by trace inclusion (what happens between two hook points is assumed atomic w.r.t. the other threads); the mapping "
-              "of hook events to labels; the Linux TCP stack; C10's trusted base for the embedded machine.")
+              "inherited descriptors are outside the model; only the ordering of bind / listen / notify / close, the drain logic, the "
+              "keep-alive re-check and the path are proved. Not proved: termination (quiescence form only, as in C10); overlapping starts "
+              "and the failure exits of ctl::listen (assumptions). The model is tied to the repository on every run by trace inclusion of "
+              "the serialised hook log of real handovers.")
+LEVEL_NOTE = ("Trusted: Coq kernel; extraction reduced by an in-kernel recheck sample; the transcription of execute()/ctl::listen/start_at/"
+              "handle_connection as validated by trace inclusion (what happens between two hook points is assumed atomic w.r.t. the other "
+              "threads); the mapping of hook events to labels; the Linux TCP and unix-socket stack; C10's trusted base for the embedded machine.")
 TECHNIQUE = "proof (inductive invariant over an LTS embedding C10's LTS) + trace inclusion of serialised hook logs + independent client oracle"
